@@ -24,7 +24,7 @@ var (
 // hashWrites lists the operands written to the single blake3 hasher of fn in program order.
 func hashWrites(fn *ssa.Function) []ssa.Value {
 	var out []ssa.Value
-	for _, b := range fn.Blocks {
+	for _, b := range an.ScanBlocks(fn) {
 		for _, ins := range b.Instrs {
 			if call, ok := ins.(*ssa.Call); ok && an.IsCallTo(call, an.X(blake3Pkg, "Hasher", "Write")) {
 				out = append(out, call.Call.Args[1])
@@ -297,7 +297,7 @@ func c31(c *an.Check) {
 		},
 		Reqs: []an.Req{
 			{Name: "not accepted before", Holds: func(s *an.State, at ssa.Instruction) bool {
-				for _, b := range acc.Blocks {
+				for _, b := range an.ScanBlocks(acc) {
 					for _, ins := range b.Instrs {
 						if u, ok := ins.(*ssa.UnOp); ok && an.IsFieldLoad(u, accF) && s.IsFalse(u) {
 							return true
@@ -307,7 +307,7 @@ func c31(c *an.Check) {
 				return false
 			}},
 			{Name: "not closed (err == nil)", Holds: func(s *an.State, at ssa.Instruction) bool {
-				for _, b := range acc.Blocks {
+				for _, b := range an.ScanBlocks(acc) {
 					for _, ins := range b.Instrs {
 						if u, ok := ins.(*ssa.UnOp); ok && an.IsFieldLoad(u, errF) && s.IsNil(u) {
 							return true
@@ -324,7 +324,7 @@ func c31(c *an.Check) {
 		Sink: func(s *an.State, ins ssa.Instruction) bool { return isInvokeOf(ins, "", "Close") },
 		Reqs: []an.Req{
 			{Name: "not accepted", Holds: func(s *an.State, at ssa.Instruction) bool {
-				for _, b := range cl.Blocks {
+				for _, b := range an.ScanBlocks(cl) {
 					for _, ins := range b.Instrs {
 						if u, ok := ins.(*ssa.UnOp); ok && an.IsFieldLoad(u, accF) && s.IsFalse(u) {
 							return true
@@ -393,7 +393,7 @@ func c32(c *an.Check) {
 	}
 	// R10: the two digest operands are (min,max) of the parameters under an order comparison
 	var writes []*ssa.Call
-	for _, b := range sid.Blocks {
+	for _, b := range an.ScanBlocks(sid) {
 		for _, ins := range b.Instrs {
 			if call, ok := ins.(*ssa.Call); ok && an.IsCallTo(call, an.X(blake3Pkg, "Hasher", "Write")) {
 				writes = append(writes, call)
@@ -424,7 +424,7 @@ func c32(c *an.Check) {
 	})
 	// FindMatchingHashes
 	var app *ssa.Call
-	for _, b := range fm.Blocks {
+	for _, b := range an.ScanBlocks(fm) {
 		for _, ins := range b.Instrs {
 			if call, ok := ins.(*ssa.Call); ok && an.BuiltinName(call) == "append" {
 				app = call
@@ -475,7 +475,7 @@ func c32(c *an.Check) {
 		}})
 	// both cursors advance on a match, exactly one otherwise
 	okAdv := false
-	for _, b := range fm.Blocks {
+	for _, b := range an.ScanBlocks(fm) {
 		adds := 0
 		hasApp := false
 		for _, ins := range b.Instrs {
@@ -646,7 +646,7 @@ func mountedLinkForwarding(c *an.Check) {
 			continue
 		}
 		n++
-		for _, b := range fn.Blocks {
+		for _, b := range an.ScanBlocks(fn) {
 			ret, ok := b.Instrs[len(b.Instrs)-1].(*ssa.Return)
 			if !ok {
 				continue
@@ -681,7 +681,7 @@ func solicitedHandlerHandsOver(c *an.Check) {
 	})
 	closes := ""
 	for _, g := range an.WithClosures(h) {
-		for _, b := range g.Blocks {
+		for _, b := range an.ScanBlocks(g) {
 			for _, ins := range b.Instrs {
 				var cc *ssa.CallCommon
 				switch x := ins.(type) {
